@@ -13,7 +13,7 @@ ASSUMPTIONS = [
 ]
 BOUNDS = {
     "quick": "key_size 1: streams of 1 update after 0 or 1 prior writes and of 2 updates on a fresh tree (all kind combinations); every truncation length 0..8 of one update",
-    "thorough": "key_size 1: streams of <= 3 updates; key_size 2: streams of <= 2 updates, truncation lengths 0..16",
+    "thorough": "key_size 1: all streams of <= 2 updates and three kind patterns of 3 updates; key_size 2: streams of 1 update and two kind patterns of 2 updates, truncation lengths 0..16",
 }
 OUTSIDE = "key sizes above 2, longer streams, update lists longer than the depth"
 
@@ -22,7 +22,7 @@ def obligations(tier):
     obs = []
 
     def add(name, fn, builder, t=1800, **params):
-        obs.append({"name": name, "harness": H + fn, "builder": H + builder, "params": params, "timeout_s": t, "query_timeout_ms": 300000 if tier == "quick" else 900000})
+        obs.append({"name": name, "harness": H + fn, "builder": H + builder, "params": params, "timeout_s": t, "query_timeout_ms": 300000})
     sync = "proof value / branch / root equal the tree's after every streamed update"
 
     def streams(ks, n, dshapes, pres, vset):
@@ -40,9 +40,11 @@ def obligations(tier):
     else:
         streams(1, 1, (0, 2), ([], [2]), (0, 2, 33))
         streams(1, 2, (0, 2), ([], [2]), (0, 2))
-        streams(1, 3, (2,), ([],), (2,))
+        for kinds in ([False, False, False], [False, True, False], [True, False, False]):
+            add(sync, "h_proof_sync", "b_proof_sync", ks=1, dshape=2, preshapes=[], vshapes=[0 if kd else 2 for kd in kinds], kinds=kinds, t=3000)
         streams(2, 1, (0, 2), ([], [2]), (0, 2))
-        streams(2, 2, (2,), ([],), (2,))
+        for kinds in ([False, False], [False, True]):
+            add(sync, "h_proof_sync", "b_proof_sync", ks=2, dshape=2, preshapes=[], vshapes=[0 if kd else 2 for kd in kinds], kinds=kinds, t=3000)
         for ks in (1, 2):
             for m in range(0, 8 * ks + 1):
                 for d, v in ((0, 2), (2, 0)):
